@@ -132,6 +132,17 @@ impl SubscriptionActor {
                 _ = deleted => (),
                 _ = poll => (),
             }
+
+            // Close the mailbox and let go of every request that still makes it in, so that
+            // whoever sent it is told that the subscription is closed. Just dropping the
+            // receiver is not enough: a sender that was admitted right before the mailbox
+            // closed may put its request in right after the receiver has emptied it for the
+            // last time, and with a handle to the subscription still around that request
+            // (and its responder) would stay there for good, its sender waiting forever.
+            receiver.close();
+            while let Some(request) = receiver.recv().await {
+                drop(request);
+            }
         });
 
         sender
